@@ -1,4 +1,4 @@
-import MpfVerif.Lemmas.Config
+import MpfVerif.Lemmas.ConfigExt
 /-!
 # C12 — config validation returns well-typed complete configs or rejects
 
@@ -6,7 +6,7 @@ import MpfVerif.Lemmas.Config
 on every check; the table theorems below are re-checked against them.
 -/
 namespace MpfVerif.C12
-open MpfVerif.Config MpfVerif.Gen
+open MpfVerif.Config MpfVerif.ConfigExt MpfVerif.Gen
 
 /-! ## the time-suffix table of `Util.string_to_ms` (generated) -/
 
@@ -147,6 +147,108 @@ theorem all_spec_validators_known :
 /-- every entry has one of the five item types (or is a bare `ignore`) -/
 theorem all_spec_item_types_known :
     ∀ r ∈ SpecTable.table, r.itemType ∈ ["single", "list", "set", "dict", "event_handler", ""] := by
+  decide +kernel
+
+/-! ## session 3: the non-scalar validators -/
+
+/-- **extended validators are typed**: for `x_or_token`, `event_handler` / `event_posted` strings, `int_from_hex`, `color`,
+`gain`, the six `template_*` builders and `machine(<collection>)` (and the scalar validators again), for every
+environment (device names, verdict of Python's expression parser) and every YAML scalar, `validate_item` rejects /
+raises / is outside the model, or returns a value of the declared type: a runtime token only for an `_or_token`
+validator, an int ≤ 255, a 3-component colour, a gain in [0,1] or NaN (see `gain_nan_witness`), a template object of the
+right class (a constant of the right type, or an expression template), a device that exists in that collection. -/
+theorem ext_validate_typed (env : Env) (vd : XV) (y : Y) (out : T) (h : vScalarX env vd y = .ok out) :
+    HasTypeX env vd out = true :=
+  xscalar_typed_aux env vd y out h
+
+/-- a device reference is accepted only if the device exists in the named collection -/
+theorem device_reference_exists (env : Env) (c : String) (y : Y) (c' n : String)
+    (h : vScalarX env (.machine c) y = .ok (.dev c' n)) : c' = c ∧ n ∈ (env.devs.lookup c).getD [] := by
+  have := xscalar_typed_aux env _ y _ h
+  simp only [HasTypeX, Bool.and_eq_true, beq_iff_eq] at this
+  exact ⟨this.1.symm, by simpa using this.2⟩
+
+/-- every colour of the generated name table (`NAMED_RGB_COLORS`) has components in 0..255 -/
+theorem named_colours_in_range : ∀ e ∈ ColorNames.table, e.2.1 ≤ 255 ∧ e.2.2.1 ≤ 255 ∧ e.2.2.2 ≤ 255 := by decide +kernel
+
+/-- observation kept visible: the list form of a colour is not range-checked (`"300,0,0"` comes back as (300, 0, 0)) and a
+fourth component is dropped silently; the name and hex forms are always inside 0..255 -/
+theorem color_list_form_unranged_witness :
+    (match vColor (.str "300,0,0"), vColor (.str "1,2,3,4") with
+     | .ok (.color 300 0 0), .ok (.color 1 2 3) => true | _, _ => false) = true := by decide +kernel
+
+/-- observation kept visible: `min(max(nan, 0.0), 1.0)` is NaN, so the gain validator returns NaN for "nan" — a float, but
+in no range; anything unparsable silently becomes gain 1.0 -/
+theorem gain_nan_witness :
+    (match vGain (.str "nan"), vGain (.str "loud") with
+     | .ok (.s .nan), .ok (.s (.rat 1 1)) => true | _, _ => false) = true := by decide +kernel
+
+/-- non-vacuity: token, colour by name / hex, device, template forms -/
+example : (match vScalarX {} (.orToken (.base (.int Option.none))) (.str "(x)") with | .ok (.token "x") => true | _ => false) = true := by decide +kernel
+example : (match vColor (.str "red"), vColor (.str "00ff80") with | .ok (.color 255 0 0), .ok (.color 0 255 128) => true | _, _ => false) = true := by decide +kernel
+example : (match vMachine { devs := [("switches", ["s1"])] } "switches" (.str "s1"), vMachine { devs := [("switches", ["s1"])] } "coils" (.str "s1") with
+    | .ok (.dev "switches" "s1"), .reject => true | _, _ => false) = true := by decide +kernel
+example : (match vTmpl {} .ms (.str "1.5s"), vTmpl { synOk := false } .int (.str "1 +"), vTmpl {} .bool (.str "x>1") with
+    | .ok (.tmpl .int true (.int 1500)), .reject, .ok (.tmpl .bool false (.str "x>1")) => true | _, _, _ => false) = true := by decide +kernel
+
+/-! ## session 3: sections at every depth (`subconfig`, nested sections, all item types) -/
+
+/-- **complete and typed at every depth**: for every spec table, environment, depth bound, section (with base specs) and
+source tree, `_validate_config` rejects, or returns a dict that lists every non-ignored key of the (merged) spec, in spec
+order, each with a value of its declared type — lists / sets element-wise, dicts and event-handler dicts key- and
+value-wise, `subconfig(...)` values and the entries of nested sections *recursively* by the same statement — and that
+holds no key the spec does not know (unless the section has `__allow_others__` or the key starts with `_`). -/
+theorem deep_section_typed_complete (specs : List Sec) (env : Env) (fuel : Nat) (names : List String) (src out : T)
+    (h : valSec specs env fuel names src = .ok out) : wtSec specs env fuel names out = true :=
+  valSec_typed specs env fuel names src out h
+
+/-- an unknown key is rejected wherever it stands: `valSec` is the function applied at every depth, so this is the
+statement for every nested section too -/
+theorem deep_unknown_key_rejected (specs : List Sec) (env : Env) (fuel : Nat) (names : List String) (sec : Sec)
+    (kvs : List (Y × T)) (hs : buildSpec specs names = some sec) (ha : sec.allowOthers = false)
+    (hu : kvs.any (fun p => !knownKey sec p.1) = true) :
+    (match valSec specs env (fuel + 1) names (.d kvs) with | .reject => true | _ => false) = true := by
+  simp [valSec, hs, ha, hu]
+
+/-- a source that is not a dict (None, a scalar, a list) is rejected at every depth -/
+theorem deep_non_dict_rejected (specs : List Sec) (env : Env) (fuel : Nat) (names : List String) (sec : Sec) (y : Y)
+    (hs : buildSpec specs names = some sec) :
+    (match valSec specs env (fuel + 1) names (.s y) with | .reject => true | _ => false) = true := by
+  simp [valSec, hs]
+
+/-- a two-level spec for the examples: `coil` has a required number, an optional `subconfig(overwrite)` and a list of them -/
+def exSpecs : List Sec := [
+  { name := "coil", keys := [{ key := "number", vd := .base (.int Option.none), dflt := Option.none },
+                             { key := "ov", vd := .subconfig ["overwrite"] },
+                             { key := "ovs", it := .list, vd := .subconfig ["overwrite"] }] },
+  { name := "overwrite", keys := [{ key := "pulse_ms", vd := .base .ms }, { key := "switch", vd := .machine "switches" }] }]
+
+/-- non-vacuity: a nested source validates two levels deep (defaults filled at both levels, time converted, device
+resolved); an unknown key / an unknown device / a missing required key at depth rejects the whole config -/
+example : (match valSec exSpecs { devs := [("switches", ["s1"])] } 3 ["coil"]
+      (.d [(.str "number", .s (.str "7")), (.str "ov", .d [(.str "pulse_ms", .s (.str "1s")), (.str "switch", .s (.str "s1"))])]) with
+    | .ok (.d [(.str "number", .s (.int 7)),
+               (.str "ov", .d [(.str "pulse_ms", .s (.int 1000)), (.str "switch", .dev "switches" "s1")]),
+               (.str "ovs", .l [])]) => true
+    | _ => false) = true := by decide +kernel
+example : (match valSec exSpecs {} 3 ["coil"]
+      (.d [(.str "number", .s (.int 7)), (.str "ovs", .l [.d [], .d [(.str "zz", .s (.int 1))]])]) with
+    | .reject => true | _ => false) = true := by decide +kernel
+example : (match valSec exSpecs {} 3 ["coil"] (.d [(.str "number", .s (.int 7)), (.str "ov", .d [(.str "switch", .s (.str "s9"))])]),
+      valSec exSpecs {} 3 ["coil"] (.d [(.str "ov", .d [])]) with
+    | .reject, .reject => true | _, _ => false) = true := by decide +kernel
+
+/-! ## session 3: the generated spec -/
+
+/-- every `subconfig(...)` of `config_spec.yaml` (and every nested section) names sections that exist -/
+theorem all_subconfig_targets_exist :
+    ∀ s ∈ SpecSections.table, ∀ k ∈ s.keys, ∀ n ∈ k.subs, SpecSections.table.any (fun t => t.name == n) = true := by
+  decide +kernel
+
+/-- `_check_sections` tests `config_type not in spec[k]['__valid_in__']` on the *string*; for the two config types that are
+checked (machine, mode) this substring test agrees with membership in the comma-separated list, for every section -/
+theorem valid_in_substring_is_membership :
+    ∀ s ∈ SpecSections.table, ∀ ct ∈ ["machine", "mode"], validIn ct s = s.validInList.contains ct := by
   decide +kernel
 
 end MpfVerif.C12
